@@ -58,7 +58,10 @@ def leaves1():
             ("cmp", "eq", ("pfv", "p_val", (X,)), L(0)), ("cmp", "lt", ("pfv", "p_val", (X,)), q), ("cmp", "ge", q, ("pfv", "p_val", (X,))),
             ("in", ("pfv", "p_val", (X,)), t), ("cmp", "eq", ("pfv", "s_val", (X,)), L("")), ("cmp", "ne", ("pfv", "s_val", (X,)), s),
             # controls: condition position is boolean
-            ("t", p), ("t", s), ("t", A(X, "flag")), ("pf", "p_val", (X,)), ("pf", "s_val", (X,))]
+            ("t", p), ("t", s), ("t", A(X, "flag")), ("pf", "p_val", (X,)), ("pf", "s_val", (X,)),
+            # wave 9 (C19-agent9): a CHAIN of mappings in condition position - only the last link is a truth value, the
+            # value in between ('' / an empty tuple) is a value like any other
+            ("t", ("c", s, "startswith", ("",))), ("t", ("c", s, "isalpha", ())), ("t", ("c", t, "count", (0,)))]
     return out
 
 
